@@ -187,19 +187,53 @@ func resolveBatch(r *rep.Report, p *load.Program, rl *roles.Roles) *batchInfo {
 				stores = append(stores, st)
 			}
 		}
+		isLenP1 := func(v ssa.Value) bool {
+			if cv, ok := v.(*ssa.Convert); ok {
+				v = cv.X
+			}
+			c, ok := v.(*ssa.Call)
+			if !ok {
+				return false
+			}
+			bn, ok := c.Common().Value.(*ssa.Builtin)
+			return ok && bn.Name() == "len" && c.Common().Args[0] == fn.Params[1]
+		}
+		allTrue := false
 		if len(stores) == 1 {
-			if ms, ok := stores[0].Val.(*ssa.MakeSlice); ok {
-				ln := ms.Len
-				if cv, ok := ln.(*ssa.Convert); ok {
-					ln = cv.X
+			switch v := stores[0].Val.(type) {
+			case *ssa.MakeSlice:
+				if isLenP1(v.Len) {
+					bi.validIsN = true
+					allTrue = initAllTrue(fn, v, bi.validCell)
 				}
-				if c, ok := ln.(*ssa.Call); ok {
-					if bn, ok := c.Common().Value.(*ssa.Builtin); ok && bn.Name() == "len" && c.Common().Args[0] == fn.Params[1] {
-						bi.validIsN = true
+			case *ssa.Call:
+				// a private constructor: returns its own make([]bool, n) with n = len(publicKeys), set all-true inside
+				if h := v.Common().StaticCallee(); h != nil && h.Pkg == fn.Pkg && h.Parent() == nil && len(h.Blocks) > 0 {
+					var mk *ssa.MakeSlice
+					okRet := true
+					for _, blk := range h.Blocks {
+						if ret, ok := blk.Instrs[len(blk.Instrs)-1].(*ssa.Return); ok {
+							m, isMk := ret.Results[0].(*ssa.MakeSlice)
+							if len(ret.Results) != 1 || !isMk || (mk != nil && mk != m) {
+								okRet = false
+							} else {
+								mk = m
+							}
+						}
+					}
+					if okRet && mk != nil {
+						for k, prm := range h.Params {
+							if mk.Len == ssa.Value(prm) && k < len(v.Common().Args) && isLenP1(v.Common().Args[k]) {
+								bi.validIsN = true
+								allTrue = initAllTrue(h, mk, nil)
+							}
+						}
 					}
 				}
 			}
 		}
+		r.Check(allTrue, "B5-returns", cfg, "the validity vector starts all-true", ssau.InstrPos(p, bi.validCell), "a loop over the whole vector stores true at its counter in every iteration",
+			"no loop sets every element of the freshly made validity vector to true before it is used")
 		r.Check(bi.validIsN, "B0-structure", cfg, "VerifyBatch: the validity vector is make([]bool, len(publicKeys)), assigned once", ssau.InstrPos(p, bi.validCell), "one store of a make of length len(publicKeys)",
 			"the validity vector is not a single make([]bool, len(publicKeys))")
 	}
@@ -965,6 +999,14 @@ func ruleBatchAll(c *Ctx, r *rep.Report, p *load.Program, rl *roles.Roles, fl *f
 				wantStores = []string{"addr(deref(local:valid),@e):=" + res0, "addr(local:ret):=or(boolToRet(" + res0 + "),local:ret)"}
 			}
 			sort.Strings(wantStores)
+			if already && guarded {
+				// the entry is known to be false on this path: folding in boolToRet(false) is the same statement
+				for i, st := range stores {
+					if st == "addr(local:ret):=or(boolToRet(#false),local:ret)" {
+						stores[i] = wantStores[0]
+					}
+				}
+			}
 			r.Check(rp.stop == "back" && strings.Join(calls, ";") == strings.Join(wantCalls, ";") && strings.Join(stores, ";") == strings.Join(wantStores, ";"),
 				"B5-single-verify", cfg, role+": entry e is decided by noPanic(publicKeys[e], messages[e], sigs[e], opts), stored in valid[e] and folded into the summary", bi.pos(rp.pa.ExitPos),
 				"calls "+strings.Join(wantCalls, ";")+" stores "+strings.Join(wantStores, ";"),
@@ -1275,19 +1317,6 @@ func (bi *batchInfo) chunkLevel(r *rep.Report, fl *flags) {
 	}
 	_ = nret
 	bi.argCounts(r)
-	// result vector: make([]bool, num) all set true by the init loop
-	if bi.initL != nil {
-		rps, _ := bi.regionTop(r, bi.initL)
-		okI := false
-		for _, rp := range rps {
-			for _, e := range rp.pa.Events {
-				if e.Callee == "store" && e.Args[0].String() == "#true" && strings.Contains(e.Addrs[0].String(), "valid") {
-					okI = true
-				}
-			}
-		}
-		r.Check(okI, "B5-returns", cfg, "the validity vector starts all-true", "", "init loop stores true to every element", "init loop does not set the validity vector to true")
-	}
 	_ = fl
 }
 
@@ -1633,4 +1662,83 @@ func ruleMsmFinal(r *rep.Report, p *load.Program, rl *roles.Roles) {
 	}
 	r.Check(len(bad) == 0, "B9-final-ladder", cfg, "the final [s]P of the multi-scalar routine: s=1 gives P, s=0 the neutral element, otherwise a double-and-add ladder over an accumulator that is a group element", ssau.Pos(p, fn.Pos()),
 		"three scalar cases and the ladder step compared with the specification", strings.Join(bad, "; "))
+}
+
+// initAllTrue: in fn, a loop runs its counter over the whole slice mk (range form, or 0 .. len-1) and stores true at the
+// counter in every iteration. cell, when given, is the variable the slice is kept in (loads of it denote the slice).
+func initAllTrue(fn *ssa.Function, mk *ssa.MakeSlice, cell *ssa.Alloc) bool {
+	isSlice := func(v ssa.Value) bool {
+		if v == ssa.Value(mk) {
+			return true
+		}
+		if u, ok := v.(*ssa.UnOp); ok && u.Op == token.MUL && cell != nil && u.X == ssa.Value(cell) {
+			return true
+		}
+		return false
+	}
+	for _, l := range b.Loops(fn) {
+		ifi, ok := l.Header.Instrs[len(l.Header.Instrs)-1].(*ssa.If)
+		if !ok {
+			continue
+		}
+		cmp, ok := ifi.Cond.(*ssa.BinOp)
+		if !ok || cmp.Op != token.LSS {
+			continue
+		}
+		// bound: len(slice) or the make's own length
+		okBound := cmp.Y == mk.Len
+		if c, ok := cmp.Y.(*ssa.Call); ok {
+			if bn, ok := c.Common().Value.(*ssa.Builtin); ok && bn.Name() == "len" && isSlice(c.Common().Args[0]) {
+				okBound = true
+			}
+		}
+		if !okBound {
+			continue
+		}
+		// counter: phi from 0 stepping by 1 compared directly, or the range form (phi from -1, phi+1 compared)
+		okCtr := false
+		switch x := cmp.X.(type) {
+		case *ssa.Phi:
+			for _, e := range x.Edges {
+				if n, ok := constInt(e); ok && n == 0 {
+					okCtr = true
+				}
+			}
+		case *ssa.BinOp:
+			if ph, ok := x.X.(*ssa.Phi); ok && x.Op == token.ADD {
+				for _, e := range ph.Edges {
+					if n, ok := constInt(e); ok && n == -1 {
+						okCtr = true
+					}
+				}
+			}
+		}
+		if !okCtr {
+			continue
+		}
+		for blk := range l.Blocks {
+			for _, in := range blk.Instrs {
+				st, ok := in.(*ssa.Store)
+				if !ok {
+					continue
+				}
+				c, isC := st.Val.(*ssa.Const)
+				ia, isIA := st.Addr.(*ssa.IndexAddr)
+				if !isC || !isIA || c.Value == nil || c.Value.String() != "true" || !isSlice(ia.X) || ia.Index != cmp.X {
+					continue
+				}
+				// every iteration: the store's block dominates every back edge
+				dom := true
+				for _, pred := range l.Header.Preds {
+					if l.Blocks[pred] && !blk.Dominates(pred) {
+						dom = false
+					}
+				}
+				if dom {
+					return true
+				}
+			}
+		}
+	}
+	return false
 }
